@@ -8,8 +8,9 @@
 // to the case by the runner (clause "crashed"); a case that does not finish under the watchdog is a
 // hang violation.
 //
-// Memory guard: a goroutine watches heap+stack of the worker; above 2 GiB (inputs are <= 64 KiB,
-// so this is amplification by > 30000x, i.e. unbounded growth) it prints
+// Memory guard: a goroutine watches heap+stack of the worker; above 2 GiB in total or 512 MiB of
+// stack (inputs are <= 64 KiB, so this is amplification by > 8000x, i.e. unbounded growth; the
+// bounded depth bombs stay below 100 MiB) it prints
 // "fatal error: c20 memory guard ..." followed by the top helm frame of the running goroutine and
 // exits, so that unbounded recursion is reported as a crash instead of eating the machine.
 //
@@ -92,6 +93,12 @@ func genCases(seed int64, tier string) []core.Case {
 	rng := rand.New(rand.NewSource(seed*7368787 + 20))
 	var out []core.Case
 	for _, e := range entries {
+		// development aid (monitor validation runs): restrict the list to some entry points. Never
+		// set by the check scripts; without it the list is a pure function of (seed, tier).
+		if only := os.Getenv("C20_ONLY"); only != "" && !strings.Contains(","+only+",", ","+e.name+",") {
+			rng.Int63()
+			continue
+		}
 		total, batch := e.quick, e.batch
 		if tier == "thorough" {
 			total = e.thorough
@@ -218,7 +225,10 @@ func (x *exec) mkdir(name string) string {
 
 var guardOnce sync.Once
 
-const memLimit = 2 << 30
+const (
+	memLimit   = 2 << 30
+	stackLimit = 512 << 20 // well below the runtime's own 1 GB limit, so that the guard can name the helm frame
+)
 
 var ifaceRe = regexp.MustCompile(`interface \{\} is [^,@]+, not`)
 
@@ -231,7 +241,7 @@ func startMemGuard() {
 			for {
 				time.Sleep(100 * time.Millisecond)
 				runtime.ReadMemStats(&ms)
-				if ms.HeapAlloc+ms.StackInuse > memLimit {
+				if ms.HeapAlloc+ms.StackInuse > memLimit || ms.StackInuse > stackLimit {
 					buf := make([]byte, 4<<20)
 					buf = buf[:runtime.Stack(buf, true)]
 					fr := "(no helm frame found)"
@@ -241,7 +251,7 @@ func startMemGuard() {
 					if len(buf) > 20000 {
 						buf = buf[:20000]
 					}
-					fmt.Fprintf(os.Stderr, "fatal error: c20 memory guard: heap+stack above 2 GiB for an input of at most 64 KiB (unbounded growth)\n%s(...)\n\n%s\n", fr, buf)
+					fmt.Fprintf(os.Stderr, "fatal error: c20 memory guard: heap+stack beyond the limit for an input of at most 64 KiB (unbounded growth)\n%s(...)\n\n%s\n", fr, buf)
 					os.Exit(3)
 				}
 			}
